@@ -609,3 +609,10 @@ func classifyDeadlock(d1, d2 string) bool {
 
 // ReadlineStack returns the Readline goroutine's part of a dump.
 func ReadlineStack(dump string) string { return readlineGoroutine(dump) }
+
+// StepsTaken is the number of delivery steps taken so far in the current call.
+func (s *Session) StepsTaken() int {
+	s.mu.Lock()
+	defer s.mu.Unlock()
+	return s.next
+}
